@@ -712,3 +712,68 @@ func viaConfirmedCallers(p *core.Prog, f *core.FuncInfo, confirmed func(name str
 	sort.Strings(out)
 	return out, true
 }
+
+// workUnit finds where the work identified by pred lives: a function literal of f, f itself, or a function of the
+// same package that f calls directly (a closure extracted into a named function). nil when there is none or the
+// choice is ambiguous.
+func workUnit(p *core.Prog, f *core.FuncInfo, pred func(*ast.CallExpr) bool) *core.FuncInfo {
+	has := func(g *core.FuncInfo) bool {
+		if g == nil || g.Body == nil {
+			return false
+		}
+		for _, e := range g.Graph().Events {
+			if (e.Kind == core.EvCall || e.Kind == core.EvDeferred) && e.Call != nil && pred(e.Call) {
+				return true
+			}
+		}
+		return false
+	}
+	var found []*core.FuncInfo
+	for _, l := range f.Lits {
+		if has(l) {
+			found = append(found, l)
+		}
+	}
+	if len(found) == 0 && has(f) {
+		return f
+	}
+	if len(found) == 0 {
+		seen := map[*core.FuncInfo]bool{}
+		for _, e := range f.Graph().Events {
+			if e.Kind != core.EvCall || e.Call == nil {
+				continue
+			}
+			fn, _ := e.Callee.(*types.Func)
+			g := p.FuncOf(fn)
+			if g == nil || g == f || seen[g] || g.Pkg != f.Pkg {
+				continue
+			}
+			seen[g] = true
+			if has(g) {
+				found = append(found, g)
+			}
+		}
+	}
+	if len(found) != 1 {
+		return nil
+	}
+	return found[0]
+}
+
+// callsUnit matches the call in f that runs the work unit: the immediate invocation of the literal, or the static
+// call of the named function.
+func callsUnit(f *core.FuncInfo, unit *core.FuncInfo) func(*ast.CallExpr) bool {
+	return func(ce *ast.CallExpr) bool {
+		if unit == nil {
+			return false
+		}
+		if l, ok := ast.Unparen(ce.Fun).(*ast.FuncLit); ok {
+			return unit.Lit == l
+		}
+		if unit.Obj == nil {
+			return false
+		}
+		fn, _ := core.Callee(f.Info(), ce).(*types.Func)
+		return fn == unit.Obj
+	}
+}
